@@ -207,8 +207,9 @@ GroupInsertRel(e, t, u, rc, hasC, rn, hasN) ==
         /\ \A i \in Pos(t) : Sets(O(u, PosOf(u, O(t, i).gp))) = Sets(O(t, i))
                              /\ Place(u, PosOf(u, O(t, i).gp)) = Place(t, i)
         /\ hasC => CS(O(u, PosOf(u, e.obj))) = Cut(rc, CS(O(t, 1)))
-     \/ \* a new Group is in the tree
-        /\ e.obj # 0 /\ e.same = 1 /\ e.obj \notin GpSet(t)
+     \/ \* a new Group is in the tree (when it replaces an existing Group of the same location, hwloc keeps the old structure and moves
+        \* the contents of the new one into it: the returned pointer is then not the one that was given, e.same = 0)
+        /\ e.obj # 0 /\ e.obj \notin GpSet(t)
         /\ WellFormed(u) /\ GpUserdataStable(t, u)
         \* existing Groups at the same location may be replaced; nothing else disappears
         /\ GpSet(t) \ GpSet(u) \subseteq {O(t, i).gp : i \in {j \in Pos(t) : O(t, j).type = GROUP}}
@@ -289,19 +290,21 @@ RefreshRel(e, t, u) == e.ret = 0 /\ Unchanged(t, u)
 GroupingRel(t, u) ==
   /\ WellFormed(u) /\ GpUserdataStable(t, u)
   /\ TopLevel(u) = TopLevel(t)
-  /\ GpSet(t) \subseteq GpSet(u)
+  \* an existing Group at the location of a new one may be replaced by it (hwloc keeps the Group of lower kind); nothing else disappears
+  /\ GpSet(t) \ GpSet(u) \subseteq {O(t, i).gp : i \in {j \in Pos(t) : O(t, j).type = GROUP}}
   /\ \A i \in Pos(u) : O(u, i).gp \notin GpSet(t) => O(u, i).type = GROUP
-  /\ \A i \in Pos(t) : LET v == O(u, PosOf(u, O(t, i).gp)) IN Intrinsic(v) = Intrinsic(O(t, i)) /\ Sets(v) = Sets(O(t, i))
+  /\ \A i \in Pos(t) : O(t, i).gp \in GpSet(u) =>
+        LET v == O(u, PosOf(u, O(t, i).gp)) IN Intrinsic(v) = Intrinsic(O(t, i)) /\ Sets(v) = Sets(O(t, i))
 
 \* the XML export digest (xd) covers the stores, so it may move here; nothing else does
 StoreRel(e, t, u) ==
-  /\ e.ret \in {0, -1}
+  /\ (e.e # "cpukind_info" => e.ret \in {0, -1})       \* hwloc_modify_infos returns the number of pairs it changed
   /\ IF e.e = "dist_add" /\ e.commit = 0 /\ (e.addflags % 4) # 0 /\ e.addflags < 4
      THEN GroupingRel(t, u)
      ELSE [u EXCEPT !.xd = <<>>, !.stores = <<>>] = [t EXCEPT !.xd = <<>>, !.stores = <<>>]
 
 ModifyingEvents == {"restrict", "insert_misc", "group", "group_obj", "group_free", "allow", "add_info", "set_subtype", "refresh",
-                    "dist_add", "dist_remove", "memattr", "cpukind"}
+                    "dist_add", "dist_remove", "memattr", "cpukind", "cpukind_info"}
 
 \* t is the stored (tagged) projection before, u the logged one after
 ModifyRel(e, t, u, slot) ==
@@ -314,7 +317,7 @@ ModifyRel(e, t, u, slot) ==
     [] e.e = "add_info"    -> AddInfoRel(e, t, u)
     [] e.e = "set_subtype" -> SetSubtypeRel(e, t, u)
     [] e.e = "refresh"     -> RefreshRel(e, t, u)
-    [] e.e \in {"dist_add", "dist_remove", "memattr", "cpukind"} -> StoreRel(e, t, u)
+    [] e.e \in {"dist_add", "dist_remove", "memattr", "cpukind", "cpukind_info"} -> StoreRel(e, t, u)
 
 (* ------------------------------------------------------------------ *)
 (* hwloc_topology_dup (C12): the copy is observably identical,         *)
